@@ -7,6 +7,10 @@ TECH = "bounded symbolic execution of the real code's go/ssa form, every branch/
 BASE = "cd /repo && go test -vet=off -count=1 -timeout 25m ./..."
 
 CLAIMED = {
+ "C17": dict(
+   text="The real Stream + CodecConn + ByteBuffers over the REAL AsyncAdapter, IO and epoll poller on the kernel model, the harness being peer (frames scripted into the socket) and application. Two scenario families, every poll batch (<= 2 entries, any order and mask) symbolic until the final drain in which the model reports everything that is ready: (1) a read is pending, an application write is started (with or without a poll cycle in between), data arrives; (2) a Ping has been read so its Pong is queued, then the next read (which flushes the Pong) and an application write are started in either order before the next poll, or serialised by poll cycles. Asserted: every started AsyncNextFrame / AsyncWrite callback ran exactly once, never twice; the byte stream the peer received parses into whole masked frames, each submitted frame (Pong, application message) exactly once and in order, payloads identical.",
+   note="Directed scenarios, not free histories (a free 4-step history over this stack cost > 8 min); AsyncNextMessage, AsyncWriteFrame, AsyncClose, partial socket writes and TLS are outside this harness. The overlapping-flush defect (KF-C17-1: the read's continuation is swallowed when both chains are started before the next poll) is reported as KNOWN-FINDING; the serialised order is required to be clean.",
+   ref="DESIGN.md §4 C17"),
  "C12": dict(
    text="Claimed clauses. (a) packet connection read: one recvfrom delivering one datagram of symbolic length 1..65507 from a symbolic source into a buffer of symbolic length 1..70000, inline or deferred start, would-block and errors, 2 poll cycles: exactly one callback per datagram, n = datagram length truncated to the buffer, bytes identical at an arbitrary index, sender IP and port reported. (b) packet connection write: datagram of symbolic length and destination: on success exactly one datagram emitted (retried, never duplicated, after EAGAIN/ENOBUFS) with the caller's length, bytes and destination; nothing emitted otherwise. (c) multicast peer: after the real NewUDPPeer (name resolution arbitrary, every socket call free to fail) and any sequence of 2/4 SetLoop/SetTTL/SetAll calls each succeeding or failing, TTL(), All(), Loop() (once set), LocalAddr() and Outbound() equal the kernel model's stored option values and bound address; Close releases the socket; a failing constructor leaks nothing.",
    note="NOT APPLICABLE clauses (DESIGN §5): that joined/left/blocked groups and sources filter traffic (done inside the kernel's IP stack; the Go code only forwards arguments to setsockopt), bind forms and interface selection (host state), bursts from several real senders. UDPPeer's own read/write path (SetAsyncReadBuffer) is not covered yet. Known finding KF-C12-1 (inverted loop getter on a fresh peer) is reported as KNOWN-FINDING.",
